@@ -383,7 +383,8 @@ def plainFn (W : World) : Nat → PlainRec
 Plain execution of a history keeps, for every path, the value most recently kept there by a *completed* evaluation
 (what `dds.load` is expected to return later, in another evaluation). -/
 
-/-- plain execution of one request (entry call), from the values kept so far -/
+/-- plain execution of one request (entry call), from the values kept so far; the value is kept at the path of the entry
+call (the path of a top-level `keep`, or the path of the data function that is called or evaluated) -/
 def plainRun (W : World) (kept : LoadEnv) (rq : Request) : PRes :=
   match W.find rq.fn with
   | none => (.error (.dds .objectNotFound), { kept })
@@ -393,7 +394,9 @@ def plainRun (W : World) (kept : LoadEnv) (rq : Request) : PRes :=
     | some env =>
       match plainFn W W.fuel { kept } fn env with
       | (.ok v, st) =>
-        (.ok v, match entryPathOf rq fn with | some p => { st with kept := aset st.kept p v } | none => st)
+        (.ok v, match (match entryPathOf rq fn with | some p => some p | none => fn.storePath) with
+          | some p => { st with kept := aset st.kept p v }
+          | none => st)
       | r => r
 
 /-- the state of a history: the store, and what plain execution has kept at every path -/
